@@ -92,6 +92,17 @@ func refConn(calls []callKind) (frames []interface{}, log []string) {
 					log = append(log, "C:ok")
 					emit(map[string]interface{}{"continues": true, "parameters": map[string]interface{}{"c": float64(n)}})
 				}
+			case 'K':
+				n++
+				if !more {
+					log = append(log, "K:err")
+				} else {
+					log = append(log, "K:ok")
+					emit(map[string]interface{}{"continues": true, "parameters": map[string]interface{}{"c": float64(n)}})
+				}
+			case 'M':
+				log = append(log, "M:ok")
+				emit(map[string]interface{}{"error": "org.varlink.service.MethodNotFound", "parameters": map[string]interface{}{"method": "m"}})
 			case 'E':
 				log = append(log, "E:ok")
 				emit(map[string]interface{}{"error": "t.a.Err", "parameters": map[string]interface{}{"e": float64(1)}})
@@ -266,7 +277,7 @@ func jsonEqual(a, b interface{}) bool {
 }
 
 var c01Flags = []string{"", "oneway", "more", "upgrade", "more+oneway"}
-var c01Scripts = []string{"R", "CR", "CCR", "E", "NR", "OR", "Z", "X", "RX", "CX"}
+var c01Scripts = []string{"R", "CR", "CCR", "E", "NR", "OR", "Z", "X", "RX", "CX", "KE", "KM", "KNE"}
 
 func c01Kinds() []callKind {
 	var ks []callKind
